@@ -282,6 +282,16 @@ def fresh_programs(seed, n, syms=gen.SYMS, tids=None):
                                                                          "clause": f"C15.same_with_cache_env.{op}.outcome"}})
                 for u, v in zip(hot, cenv):
                     steps.append(rel("obs", f"C15.same_with_cache_env.{op}", u, v))
+        # builders of operator arrays: every call returns a new object - changing one result in place must not show in the next
+        bsym = rng.choice(["Z2", "U1", "Z2Z2", "U1U1"])
+        for bname in rng.sample(["number_spinful", "spin", "hubbard", "number_spinless", "hubbard_spinless"], 3):
+            ba = {"name": bname, "sym": bsym if "spinless" not in bname else rng.choice(["Z2", "U1"])}
+            k += 1
+            steps.append({"op": "builder", "in": [], "out": [f"g{k}a"], "args": ba})
+            steps.append({"op": "copy", "in": [f"g{k}a"], "out": [f"g{k}c"], "args": {}})
+            steps.append({"op": rng.choice(["ismul", "ismul", "conj"]), "in": [f"g{k}a"], "out": [f"g{k}a"], "args": {"k": [2, 0], "inplace": True}})
+            steps.append({"op": "builder", "in": [], "out": [f"g{k}b"], "args": ba})
+            steps.append(rel("same", "C15.builders_return_fresh_values", f"g{k}b", f"g{k}c"))
         progs.append({"tid": tids(), "inputs": inputs, "steps": steps})
     return progs
 
